@@ -17,6 +17,7 @@ RULE = ("a case is a themed, interleaved list of 4-9 object specs (devices physi
         "every construction/decoding all earlier objects are re-snapshotted. Specs whose construction warns about an "
         "unused parameter are outside the domain and dropped. non-trivial = distinct (class, set of non-default "
         "optional fields) with >= 2 non-default optional fields")
+RULE += " Later additions: QuTiP state amplitudes are also handed over as numpy scalars or in a dict the caller edits afterwards."
 ASSUMPTIONS = [
     "qubit ids are strings (serialising other ids is documented as irreversible)",
     "fields the format documents as not carried are gray, not alarms: Device.short_description (compare=False, not in "
